@@ -329,6 +329,60 @@ func entries() []entry {
 			}
 			return d.Bytes(), err
 		}},
+		{"ReadClient/ServerText/inside-a-skipped-binary-message", func(c ctlCase) ([]byte, error) {
+			// the helpers that filter by type: the control frame sits between the fragments of a
+			// message the caller did not ask for, which the helper discards on its way
+			mk := func(op byte, fin bool, p []byte) []byte {
+				return refmodel.Frame{H: refmodel.Hdr{Fin: fin, Op: op, Masked: c.side == streams.Server, Mask: srcMask}, Payload: p}.Wire()
+			}
+			data := append(append(mk(2, false, []byte("no")), mk(c.op, true, c.payload)...), mk(0, true, []byte("pe"))...)
+			data = append(data, mk(1, true, []byte("xy"))...)
+			d := env.NewDst()
+			var p []byte
+			var err error
+			if c.side == streams.Server {
+				p, err = wsutil.ReadClientText(env.RW{Reader: bytes.NewReader(data), Writer: d})
+			} else {
+				p, err = wsutil.ReadServerText(env.RW{Reader: bytes.NewReader(data), Writer: d})
+			}
+			if err == nil && string(p) != "xy" {
+				return nil, fmt.Errorf("harness: message payload %q", p)
+			}
+			return d.Bytes(), err
+		}},
+		{"ReadClient/ServerBinary/inside-a-skipped-text-message", func(c ctlCase) ([]byte, error) {
+			mk := func(op byte, fin bool, p []byte) []byte {
+				return refmodel.Frame{H: refmodel.Hdr{Fin: fin, Op: op, Masked: c.side == streams.Server, Mask: srcMask}, Payload: p}.Wire()
+			}
+			data := append(append(append(mk(1, false, nil), mk(0, false, []byte("no"))...), mk(c.op, true, c.payload)...), mk(0, true, nil)...)
+			data = append(data, mk(2, true, []byte("xy"))...)
+			d := env.NewDst()
+			var p []byte
+			var err error
+			if c.side == streams.Server {
+				p, err = wsutil.ReadClientBinary(env.RW{Reader: bytes.NewReader(data), Writer: d})
+			} else {
+				p, err = wsutil.ReadServerBinary(env.RW{Reader: bytes.NewReader(data), Writer: d})
+			}
+			if err == nil && string(p) != "xy" {
+				return nil, fmt.Errorf("harness: message payload %q", p)
+			}
+			return d.Bytes(), err
+		}},
+		{"ControlFrameHandler/Reader-inside-a-discarded-message", func(c ctlCase) ([]byte, error) {
+			d := env.NewDst()
+			mk := func(op byte, fin bool, p []byte) []byte {
+				return refmodel.Frame{H: refmodel.Hdr{Fin: fin, Op: op, Masked: c.side == streams.Server, Mask: srcMask}, Payload: p}.Wire()
+			}
+			data := append(append(mk(1, false, []byte("ab")), mk(c.op, true, c.payload)...), mk(0, true, []byte("cd"))...)
+			rd := &wsutil.Reader{Source: bytes.NewReader(data), State: c.readerSt()}
+			rd.OnIntermediate = wsutil.ControlFrameHandler(d, c.st())
+			if _, err := rd.NextFrame(); err != nil {
+				return nil, fmt.Errorf("harness: NextFrame: %v", err)
+			}
+			err := rd.Discard()
+			return d.Bytes(), err
+		}},
 	}
 }
 
@@ -446,7 +500,9 @@ func main() {
 				for _, fe := range fes {
 					for _, timeout := range []bool{false, true} {
 						c, fe, timeout := c, fe, timeout
-						t.Do(func() string { return fmt.Sprintf("%s entry=%s first destination write fails temporarily (timeout=%v)", c, fe.name, timeout) }, func() *explore.Fail {
+						t.Do(func() string {
+							return fmt.Sprintf("%s entry=%s first destination write fails temporarily (timeout=%v)", c, fe.name, timeout)
+						}, func() *explore.Fail {
 							d := env.NewDst()
 							d.FailAt, d.Partial, d.Transient, d.Err = 0, 0, true, env.TempErr{IsTimeout: timeout}
 							ret := fe.run(c, d)
